@@ -419,7 +419,10 @@ theorem good_symPush (A atStart : Bool) (hctx : atStart = true → A = false) (v
   split
   · exact hg
   · split
-    · exact good_pop G ok okp A atStart hctx v hg
+    · refine good_pop G ok okp A atStart hctx _ ?_
+      split
+      · exact good_clear G ok okp A atStart v
+      · exact hg
     · split
       · exact good_push G ok okp A atStart hctx v s hg hs
       · exact hg
